@@ -63,7 +63,7 @@ def run(ctx):
                     ctx.violation("oracle", f"token {tv!r} after {pre!r} followed by {fol!r} is reported at {t.pos.filename}:{t.pos.line}, it starts on line {want_line}",
                                   {"op": "token-line", "src": src, "token": tv})
                 reqs.append("(scan s:" + proto.enc_str(src) + ")")
-                meta.append(("scan", src, [(x.type, x.value, x.pos.line, x.pos.column) for x in toks]))
+                meta.append(("scan", src, [(x.type, x.value, x.pos.line) for x in toks]))
     ctx.count("token_cases", len(reqs))
     # ---------------- planted faults
     fillers = ["def a1 = 1", "def b1 = [1, 2]", "3 + 2", "'text'", "def f1(x) x + 1", "if 1 == 1 then 'y' else 'n'", "for q1 in [1, 2] do q1 end",
@@ -169,7 +169,7 @@ def run(ctx):
             if x[0] != "toks":
                 model = None
             else:
-                model = [(t[1], proto.dec_str(t[2][2:]), int(t[3]), int(t[4])) for t in x[1:]]
+                model = [(t[1], proto.dec_str(t[2][2:]), int(t[3])) for t in x[1:]]
             if model != impl_toks:
                 ctx.disagreements += 1
                 ctx.violation("correspondence", f"scan of {src!r}: model {model}, implementation {impl_toks}",
